@@ -1,4 +1,5 @@
 import Qryn.TraceQL.Sem
+import Qryn.Proofs.SemGAux
 import Qryn.Gen.TraceQLOps
 /-! C11 helper lemmas: rows of the attribute index as SQL rows, and the SQL text of one condition. -/
 namespace Qryn.TraceQL
@@ -7,15 +8,26 @@ open Qryn Qryn.Sql
 /-- the row the index scan sees: `FROM <table> as traces_idx` -/
 def AttrRow.qrow (a : AttrRow) : Row := qualify "traces_idx" a.row
 
-theorem qrow_key (a : AttrRow) : a.qrow.get "key" = .str a.key := by rfl
-theorem qrow_val (a : AttrRow) : a.qrow.get "val" = .str a.val := by rfl
-theorem qrow_date (a : AttrRow) : a.qrow.get "date" = .str a.date := by rfl
-theorem qrow_trace (a : AttrRow) : a.qrow.get "trace_id" = .str a.traceId := by rfl
-theorem qrow_span (a : AttrRow) : a.qrow.get "span_id" = .str a.spanId := by rfl
-theorem qrow_ts (a : AttrRow) : a.qrow.get "timestamp_ns" = .int a.ts := by rfl
-theorem qrow_dur (a : AttrRow) : a.qrow.get "duration" = .int a.dur := by rfl
-theorem qrow_qts (a : AttrRow) : a.qrow.get "traces_idx.timestamp_ns" = .int a.ts := by rfl
-theorem qrow_qdur (a : AttrRow) : a.qrow.get "traces_idx.duration" = .int a.dur := by rfl
+theorem qrow_nodot (a : AttrRow) (n : String) (hn : '.' ∉ n.toList) : a.qrow.get n = a.row.get n :=
+  get_qualify_nodot "traces_idx" a.row n hn
+
+theorem qrow_key (a : AttrRow) : a.qrow.get "key" = .str a.key := by rw [qrow_nodot a _ (by decide)]; rfl
+theorem qrow_val (a : AttrRow) : a.qrow.get "val" = .str a.val := by rw [qrow_nodot a _ (by decide)]; rfl
+theorem qrow_date (a : AttrRow) : a.qrow.get "date" = .str a.date := by rw [qrow_nodot a _ (by decide)]; rfl
+theorem qrow_trace (a : AttrRow) : a.qrow.get "trace_id" = .str a.traceId := by rw [qrow_nodot a _ (by decide)]; rfl
+theorem qrow_span (a : AttrRow) : a.qrow.get "span_id" = .str a.spanId := by rw [qrow_nodot a _ (by decide)]; rfl
+theorem qrow_ts (a : AttrRow) : a.qrow.get "timestamp_ns" = .int a.ts := by rw [qrow_nodot a _ (by decide)]; rfl
+theorem qrow_dur (a : AttrRow) : a.qrow.get "duration" = .int a.dur := by rw [qrow_nodot a _ (by decide)]; rfl
+theorem qrow_qts (a : AttrRow) : a.qrow.get "traces_idx.timestamp_ns" = .int a.ts := by
+  have := get_qualify_dot "traces_idx" a.row "timestamp_ns"
+  simp only [AttrRow.qrow]
+  rw [show "traces_idx.timestamp_ns" = "traces_idx" ++ "." ++ "timestamp_ns" from by decide, this]
+  rfl
+theorem qrow_qdur (a : AttrRow) : a.qrow.get "traces_idx.duration" = .int a.dur := by
+  have := get_qualify_dot "traces_idx" a.row "duration"
+  simp only [AttrRow.qrow]
+  rw [show "traces_idx.duration" = "traces_idx" ++ "." ++ "duration" from by decide, this]
+  rfl
 
 end Qryn.TraceQL
 
